@@ -41,11 +41,18 @@ type HObj struct {
 }
 
 type Frame struct {
-	Fn   *ssa.Function
-	Blk  *ssa.BasicBlock
-	PC   int
-	Prev *ssa.BasicBlock
-	Regs map[ssa.Value]Val
+	Fn     *ssa.Function
+	Blk    *ssa.BasicBlock
+	PC     int
+	Prev   *ssa.BasicBlock
+	Regs   map[ssa.Value]Val
+	Defers []deferred
+}
+
+type deferred struct {
+	Site *ssa.Defer
+	Recv Val
+	Args []Val
 }
 
 type State struct {
@@ -63,6 +70,7 @@ type State struct {
 	Notes  map[string]bool
 	Path   []string // decided atoms ("<atom>=T/F") of forks on named conditions
 	Globals map[*ssa.Global]int
+	Effects []string // ordered side effects recorded by hooks
 }
 
 type HookFn func(m *Machine, st *State, call *ssa.CallCommon, args []Val) (alts []Val, handled bool)
@@ -81,6 +89,7 @@ type Machine struct {
 	OnAppend  func(st *State, site ssa.Instruction, slice Val, elems []Val)
 	OnStore   func(st *State, site *ssa.Store, addr Ptr, v Val)
 	skipInit  func(fn *ssa.Function) bool
+	AltFilter func(st *State, v Val) Val // applied to the alternative a fork takes
 	Stuck     map[string]int
 }
 
@@ -131,7 +140,7 @@ func (st *State) Clone() *State {
 		n.Tapes = append(n.Tapes, &Tape{Base: t.Base, Syms: append([]int(nil), t.Syms...)})
 	}
 	for _, f := range st.Frames {
-		nf := &Frame{Fn: f.Fn, Blk: f.Blk, PC: f.PC, Prev: f.Prev, Regs: make(map[ssa.Value]Val, len(f.Regs))}
+		nf := &Frame{Fn: f.Fn, Blk: f.Blk, PC: f.PC, Prev: f.Prev, Regs: make(map[ssa.Value]Val, len(f.Regs)), Defers: append([]deferred(nil), f.Defers...)}
 		for k, v := range f.Regs {
 			nf.Regs[k] = cloneVal(v)
 		}
@@ -139,6 +148,7 @@ func (st *State) Clone() *State {
 	}
 	n.Trace = append([]string(nil), st.Trace...)
 	n.Path = append([]string(nil), st.Path...)
+	n.Effects = append([]string(nil), st.Effects...)
 	if st.Globals != nil {
 		n.Globals = make(map[*ssa.Global]int, len(st.Globals))
 		for k, v := range st.Globals {
@@ -466,7 +476,44 @@ func (m *Machine) step(st *State) (forks []*State) {
 	case *ssa.Panic:
 		st.Status = stPanic
 		st.Msg = "explicit panic at " + m.P.Pos(x.Pos())
+	case *ssa.Defer:
+		d := deferred{Site: x}
+		if x.Call.IsInvoke() {
+			d.Recv = m.get(st, fr, x.Call.Value)
+		}
+		for _, a := range x.Call.Args {
+			d.Args = append(d.Args, m.get(st, fr, a))
+		}
+		fr.Defers = append(fr.Defers, d)
+		fr.PC++
 	case *ssa.RunDefers:
+		// deferred calls are run for their recorded effects only (hooks / opaque receivers)
+		for i := len(fr.Defers) - 1; i >= 0; i-- {
+			d := fr.Defers[i]
+			cc := &d.Site.Call
+			if cc.IsInvoke() {
+				if m.InvokeHook != nil {
+					if _, handled := m.InvokeHook(m, st, cc, d.Recv, d.Args); handled {
+						continue
+					}
+				}
+				st.stuck("deferred interface call %s", cc.Method.Name())
+				return nil
+			}
+			callee := cc.StaticCallee()
+			if callee == nil {
+				st.stuck("deferred dynamic call")
+				return nil
+			}
+			if h, ok := m.Hooks[callee.String()]; ok {
+				if _, handled := h(m, st, cc, d.Args); handled {
+					continue
+				}
+			}
+			st.stuck("deferred call of unmodelled function %s", callee.String())
+			return nil
+		}
+		fr.Defers = nil
 		fr.PC++
 	case *ssa.Alloc:
 		et := x.Type().Underlying().(*types.Pointer).Elem()
@@ -894,11 +941,19 @@ func (m *Machine) doCall(st *State, fr *Frame, x *ssa.Call) []*State {
 		for i := 1; i < len(alts); i++ {
 			o := st.Clone()
 			ofr := o.top()
-			ofr.Regs[x] = cloneVal(alts[i])
+			v := alts[i]
+			if m.AltFilter != nil {
+				v = m.AltFilter(o, v)
+			}
+			ofr.Regs[x] = cloneVal(v)
 			ofr.PC++
 			forks = append(forks, o)
 		}
-		fr.Regs[x] = alts[0]
+		v0 := alts[0]
+		if m.AltFilter != nil {
+			v0 = m.AltFilter(st, v0)
+		}
+		fr.Regs[x] = v0
 		fr.PC++
 		return forks
 	}
